@@ -111,6 +111,16 @@ ImplDecompress(s, devAvg, devArr, devNul, devEmpty) ==
        THEN [Plain(s) EXCEPT !.content = d.data, !.length = Len(d.data), !.orc = NoOracle]
        ELSE s
 
+\* the same with the thread's scratch state (Codecs, "Thread history"); returns [s, rows]
+ImplViewT(s, rows, devRows) == ImplDecodeT(s.content, Chain(s), s.form, s.orc, rows, devRows)
+ImplDecompressT(s, rows, devRows) ==
+    IF s.filters = <<>>
+    THEN [s |-> IF s.ff = "array" THEN [Plain(s) EXCEPT !.length = Len(s.content), !.orc = NoOracle] ELSE s, rows |-> rows]
+    ELSE LET d == ImplViewT(s, rows, devRows)
+         IN [s |-> IF (\A i \in 1..Len(s.filters) : s.filters[i] \in Known) /\ d.ok
+                   THEN [Plain(s) EXCEPT !.content = d.data, !.length = Len(d.data), !.orc = NoOracle] ELSE s,
+             rows |-> d.rows]
+
 \* Document::compress honours allows_compression, Stream::compress does not
 ImplDocCompress(ss, cs, devStale) == [i \in 1..Len(ss) |-> IF ss[i].allows THEN ImplCompress(ss[i], cs[i], devStale) ELSE ss[i]]
 ImplDocDecompress(ss, devAvg, devArr, devNul, devEmpty) ==
